@@ -1423,6 +1423,6 @@ theorem dataClauses_ok {cfg : Cfg} (ok : CfgOK cfg) (hfuel : cfg.fuel = 0) (hper
   simp only [Bool.or_eq_false_iff] at hctl
   obtain ⟨⟨⟨⟨⟨⟨⟨⟨h1, h2⟩, h3⟩, h4⟩, h5⟩, h6⟩, h7⟩, h8⟩, h9⟩ := hctl
   exact (seg_data ok hfuel hperm inv rd m hm am hget hal s2 evs he' hb q (by simp [h1, h2]) h3
-    (by simp [h4, h5, h6, h7]) h8 h9).2.2
+    (by simp [h4, h5, h6, h7]) h8 h9).2.2.1
 
 end Pyrtma.Mgr
